@@ -154,8 +154,18 @@ type ReverseInnerSearcher struct {
 	universalPrefix bool // True if prefix is .* (matches everything from start)
 	universalSuffix bool // True if suffix ends with .* (matches everything to end)
 	startAnchored   bool // True if prefix only contains start anchors (^, ^+, etc.)
+	prefixEmpty     bool // True if the prefix can match the empty string
 	fwdCachePool    sync.Pool
 	revCachePool    sync.Pool
+
+	// Engines over the FULL pattern: they produce the span once the
+	// prefix/suffix automata have established that a match exists.
+	fullNFA          *nfa.NFA
+	fullFwdDFA       *lazy.DFA
+	fullRevDFA       *lazy.DFA
+	fullFwdCachePool sync.Pool
+	fullRevCachePool sync.Pool
+	vmPool           sync.Pool // per-goroutine PikeVMs (a PikeVM keeps per-search state)
 }
 
 // NewReverseInnerSearcher creates a reverse inner searcher using AST splitting.
@@ -258,6 +268,16 @@ func NewReverseInnerSearcher(
 	// Create PikeVM for fallback (uses full pattern)
 	pikevm := nfa.NewPikeVM(fullNFA)
 
+	// Lazy DFAs over the full pattern (states are built on demand)
+	fullFwdDFA, err := lazy.CompileWithConfig(fullNFA, config)
+	if err != nil {
+		return nil, err
+	}
+	fullRevDFA, err := lazy.CompileWithConfig(nfa.Reverse(fullNFA), revConfig)
+	if err != nil {
+		return nil, err
+	}
+
 	// Detect universal prefix/suffix for Find optimization
 	// For patterns like `.*connection.*`:
 	//   - universalPrefix: .* prefix means match always starts at 0
@@ -278,6 +298,10 @@ func NewReverseInnerSearcher(
 		universalPrefix: universalPrefix,
 		universalSuffix: universalSuffix,
 		startAnchored:   startAnchored,
+		prefixEmpty:     innerInfo.PrefixAST != nil && canMatchEmpty(innerInfo.PrefixAST),
+		fullNFA:         fullNFA,
+		fullFwdDFA:      fullFwdDFA,
+		fullRevDFA:      fullRevDFA,
 	}
 	s.fwdCachePool = sync.Pool{
 		New: func() any { return s.forwardDFA.NewCache() },
@@ -285,224 +309,110 @@ func NewReverseInnerSearcher(
 	s.revCachePool = sync.Pool{
 		New: func() any { return s.reverseDFA.NewCache() },
 	}
+	s.fullFwdCachePool = sync.Pool{
+		New: func() any { return s.fullFwdDFA.NewCache() },
+	}
+	s.fullRevCachePool = sync.Pool{
+		New: func() any { return s.fullRevDFA.NewCache() },
+	}
+	s.vmPool = sync.Pool{
+		New: func() any { return nfa.NewPikeVM(s.fullNFA) },
+	}
 	return s, nil
 }
 
-// Find searches using inner literal prefilter + bidirectional DFA and returns the match.
+// Find searches using inner literal prefilter + bidirectional DFA and returns
+// the leftmost-first match.
 //
-// Algorithm (leftmost-longest/greedy semantics):
-//  1. Use prefilter to find ALL inner literal candidates
-//  2. For each candidate at position P:
-//     a. Reverse DFA scans backward from P to find match START
-//     b. Forward DFA scans forward from P+innerLen to find match END
-//  3. Track leftmost-longest match:
-//     - Leftmost: earliest start position
-//     - Longest: if same start, choose longest end
-//  4. Return the best match found
-//
-// Performance:
-//   - ZERO PikeVM calls - uses DFA exclusively
-//   - Bidirectional DFA scan finds both match start and end efficiently
-//   - Prefilter reduces search space dramatically
-//
-// Example (bidirectional matching):
-//
-//	Pattern: `ERROR.*connection.*timeout`
-//	Haystack: "ERROR: connection lost due to connection timeout"
-//	Inner literal: "connection"
-//
-//	1. Prefilter finds "connection" at position 7, then at position 32
-//	2. Candidate 1 (pos=7):
-//	   a. Reverse DFA from pos=7 backward → finds start=0 (ERROR)
-//	   b. Forward DFA from pos=17 forward → finds end=24 (lost, no timeout)
-//	   c. No valid match (pattern requires "timeout" after)
-//	3. Candidate 2 (pos=32):
-//	   a. Reverse DFA from pos=32 backward → finds start=0 (ERROR)
-//	   b. Forward DFA from pos=42 forward → finds end=49 (timeout)
-//	   c. Valid match [0:49]
-//	4. Return [0:49] = "ERROR: connection lost due to connection timeout"
+// The pattern is prefix·suffix where every suffix match begins with the inner
+// literal. A match therefore exists exactly when some occurrence of the
+// literal at P has a prefix match ending at P (reverse prefix DFA, anchored at
+// P) and a suffix match starting at P (forward suffix DFA, anchored at P).
+// That test needs no scan of inputs without the literal, which is what the
+// strategy is for. The first occurrence passing it does not determine the
+// match regexp reports (`.*accb[a-c]+` on "aaaccbaabAaccbcc…" is one match
+// through both occurrences; `\w+b[0-9]*` must extend past the first b), so the
+// span comes from the engines over the full pattern: forward DFA from the
+// search start for the leftmost-first end, reverse DFA from that end for the
+// start.
 func (s *ReverseInnerSearcher) Find(haystack []byte) *Match {
-	if len(haystack) == 0 {
+	start, end, found := s.FindIndicesAt(haystack, 0)
+	if !found {
 		return nil
 	}
+	return NewMatch(start, end, haystack)
+}
 
-	// UNIVERSAL MATCH OPTIMIZATION:
-	// For patterns like `.*connection.*` where both prefix and suffix are universal (.*):
-	//   - Match start is ALWAYS 0 (because .* matches any prefix from start)
-	//   - Match end is ALWAYS len(haystack) (because .* matches any suffix to end)
-	// We can skip expensive DFA scans and just verify with fast IsMatch.
-	// This reduces Find from O(n) DFA scan to O(1) for common patterns!
-	if s.universalPrefix && s.universalSuffix {
-		if s.IsMatch(haystack) {
-			return NewMatch(0, len(haystack), haystack)
-		}
-		return nil
-	}
+// maxFailedSuffixScans bounds how many forward suffix scans may fail before
+// the filter gives up and the full-pattern engines decide: each failed scan
+// can read up to the rest of the haystack, so an unbounded number of them
+// would make one search quadratic.
+const maxFailedSuffixScans = 2
 
-	// EARLY RETURN OPTIMIZATION (from rust-regex):
-	// The prefilter finds candidates in left-to-right order.
-	// The first confirmed match is guaranteed to be the leftmost match.
-	// The forward DFA handles the "longest" part of leftmost-longest semantics.
-	// Therefore, we can return immediately on first confirmed match!
-
-	searchStart := 0
-	minPreStart := 0   // Track minimum position for forward scan quadratic detection
-	minMatchStart := 0 // Anti-quadratic guard for reverse scan
-
-	// Acquire caches once for the entire candidate loop
-	revCache := s.revCachePool.Get().(*lazy.DFACache)
-	fwdCache := s.fwdCachePool.Get().(*lazy.DFACache)
-	defer s.revCachePool.Put(revCache)
-	defer s.fwdCachePool.Put(fwdCache)
-
-	for {
-		// Find next inner literal candidate
+// candidateExists runs the existence filter from 'at'.
+// It returns (false, false) when no match starts at or after 'at',
+// (true, _) when an occurrence of the inner literal is confirmed by both
+// automata, and (false, true) when the filter gave up (guards tripped).
+func (s *ReverseInnerSearcher) candidateExists(haystack []byte, at int, fwdCache, revCache *lazy.DFACache) (confirmed, undecided bool) {
+	searchStart := at
+	minStart := at // Anti-quadratic guard for reverse scans
+	failedSuffixScans := 0
+	for searchStart < len(haystack) {
 		pos := s.prefilter.Find(haystack, searchStart)
 		if pos == -1 {
-			// No more candidates
-			break
+			return false, false
 		}
 
-		// QUADRATIC BEHAVIOR DETECTION (from rust-regex):
-		// If the new candidate starts before the end of last forward scan,
-		// we have overlapping candidates which causes O(n^2) behavior.
-		// Fall back to PikeVM which is O(n) in this case.
-		if pos < minPreStart {
-			// Quadratic behavior detected - use PikeVM fallback
-			start, end, found := s.pikevm.Search(haystack)
-			if found {
-				return NewMatch(start, end, haystack)
+		// Step 1: does a prefix match end at pos (starting at or after 'at')?
+		prefixOK := false
+		if pos == at {
+			prefixOK = s.prefixEmpty
+		} else {
+			r := s.reverseDFA.SearchReverseLimited(revCache, haystack, at, pos, minStart)
+			if r == lazy.SearchReverseLimitedQuadratic {
+				return false, true
 			}
-			return nil
+			prefixOK = r >= 0
 		}
 
-		// Step 1: Reverse search on PREFIX portion with anti-quadratic guard
-		// Check if we can reach this inner literal from an earlier position.
-		// Use minMatchStart to avoid re-scanning regions already proven to have no match.
-		matchStart := s.reverseDFA.SearchReverseLimited(revCache, haystack, 0, pos, minMatchStart)
-		if matchStart == lazy.SearchReverseLimitedQuadratic {
-			// Reverse scan hit the anti-quadratic guard - fall back to PikeVM
-			start, end, found := s.pikevm.Search(haystack)
-			if found {
-				return NewMatch(start, end, haystack)
+		// Step 2: does a suffix match start at pos?
+		if prefixOK {
+			if s.forwardDFA.SearchAtAnchored(fwdCache, haystack, pos) >= 0 {
+				return true, false
 			}
-			return nil
-		}
-		if matchStart < 0 {
-			// Prefix doesn't match - try next candidate
-			searchStart = pos + 1
-			if searchStart >= len(haystack) {
-				break
+			failedSuffixScans++
+			if failedSuffixScans >= maxFailedSuffixScans {
+				return false, true
 			}
-			continue
 		}
 
-		// Step 2: Forward search on SUFFIX portion
-		// Find the end of the match (forward DFA finds longest match = greedy)
-		suffixHaystack := haystack[pos:]
-		matchEndRel := s.forwardDFA.Find(fwdCache, suffixHaystack)
-		if matchEndRel < 0 {
-			// Suffix doesn't match - update minPreStart and try next candidate
-			minPreStart = pos + s.innerLen
-			searchStart = pos + 1
-			if searchStart >= len(haystack) {
-				break
-			}
-			continue
+		if pos > minStart {
+			minStart = pos
 		}
-
-		// EARLY RETURN: First confirmed match is leftmost by construction!
-		// Forward DFA already finds the longest match from this start position.
-		matchEnd := pos + matchEndRel
-		return NewMatch(matchStart, matchEnd, haystack)
+		searchStart = pos + 1
 	}
-
-	// Fallback: use PikeVM if no DFA match found
-	start, end, found := s.pikevm.Search(haystack)
-	if found {
-		return NewMatch(start, end, haystack)
-	}
-	return nil
+	return false, false
 }
 
 // IsMatch checks if the pattern matches using inner prefilter + bidirectional DFA.
-//
-// This is optimized for boolean matching:
-//   - Uses prefilter for fast candidate finding
-//   - Uses bidirectional DFA for fast verification
-//   - No Match object allocation
-//   - Early termination on first match
-//   - Anti-quadratic guard: tracks minStart to avoid re-scanning already-checked regions
-//
-// Algorithm:
-//  1. Prefilter finds inner literal candidates
-//  2. For each candidate:
-//     a. Reverse DFA checks if we can reach inner from start (with anti-quadratic guard)
-//     b. Forward DFA checks if we can reach end from inner
-//  3. Return true on first valid match
 func (s *ReverseInnerSearcher) IsMatch(haystack []byte) bool {
 	if len(haystack) == 0 {
 		return false
 	}
 
-	// Acquire caches once for the entire candidate loop
 	revCache := s.revCachePool.Get().(*lazy.DFACache)
 	fwdCache := s.fwdCachePool.Get().(*lazy.DFACache)
-	defer s.revCachePool.Put(revCache)
-	defer s.fwdCachePool.Put(fwdCache)
+	confirmed, undecided := s.candidateExists(haystack, 0, fwdCache, revCache)
+	s.revCachePool.Put(revCache)
+	s.fwdCachePool.Put(fwdCache)
 
-	// Use prefilter to find inner literal candidates
-	searchStart := 0
-	minStart := 0 // Anti-quadratic guard for reverse scans
-	for {
-		// Find next inner literal candidate
-		pos := s.prefilter.Find(haystack, searchStart)
-		if pos == -1 {
-			// No more candidates
-			return false
-		}
-
-		// BIDIRECTIONAL VERIFICATION:
-		//
-		// Step 1: Check if prefix matches (reverse DFA with anti-quadratic guard)
-		// Special cases for pos=0:
-		//   - universalPrefix (.*): trivially matches empty prefix
-		//   - startAnchored (^, ^+): trivially matches at position 0
-		prefixMatches := false
-		if pos == 0 && (s.universalPrefix || s.startAnchored) {
-			// Universal prefix (.*) or start anchor (^) matches at position 0
-			prefixMatches = true
-		} else if pos > 0 {
-			// Use SearchReverseLimited for anti-quadratic protection
-			revResult := s.reverseDFA.SearchReverseLimited(revCache, haystack, 0, pos, minStart)
-			if revResult == lazy.SearchReverseLimitedQuadratic {
-				// Quadratic behavior detected - fall back to PikeVM
-				_, _, matched := s.pikevm.Search(haystack)
-				return matched
-			}
-			prefixMatches = revResult >= 0
-		}
-
-		if prefixMatches {
-			// Step 2: Check if suffix matches (forward DFA from inner position)
-			suffixHaystack := haystack[pos:]
-			if s.forwardDFA.IsMatch(fwdCache, suffixHaystack) {
-				// Both prefix and suffix match - pattern matches!
-				return true
-			}
-		}
-
-		// Update anti-quadratic guard: don't re-scan before this position
-		if pos+s.innerLen > minStart {
-			minStart = pos + s.innerLen
-		}
-
-		// Try next candidate
-		searchStart = pos + 1
-		if searchStart >= len(haystack) {
-			return false
-		}
+	if undecided {
+		fullFwd := s.fullFwdCachePool.Get().(*lazy.DFACache)
+		matched := s.fullFwdDFA.IsMatch(fullFwd, haystack)
+		s.fullFwdCachePool.Put(fullFwd)
+		return matched
 	}
+	return confirmed
 }
 
 // FindIndicesAt returns match indices starting from position 'at' - zero allocation version.
@@ -526,67 +436,37 @@ func (s *ReverseInnerSearcher) FindIndicesAtWithCaches(haystack []byte, at int, 
 	return s.findIndicesAtImpl(haystack, at, fwdCache, revCache)
 }
 
-// findIndicesAtImpl is the shared implementation for FindIndicesAt and FindIndicesAtWithCaches.
+// findIndicesAtImpl is the shared implementation of every find entry point.
 func (s *ReverseInnerSearcher) findIndicesAtImpl(haystack []byte, at int, fwdCache, revCache *lazy.DFACache) (start, end int, found bool) {
 	if at >= len(haystack) {
 		return -1, -1, false
 	}
 
-	// UNIVERSAL MATCH OPTIMIZATION:
-	// For patterns like `.*connection.*` where both prefix and suffix are universal (.*)
-	if s.universalPrefix && s.universalSuffix {
-		// Just check if there's an inner literal anywhere from 'at'
-		pos := s.prefilter.Find(haystack, at)
-		if pos >= 0 {
-			// For universal prefix/suffix, match spans from 'at' to end
-			return at, len(haystack), true
-		}
+	// Phase 1 (filter): is there any match starting at or after 'at'?
+	confirmed, undecided := s.candidateExists(haystack, at, fwdCache, revCache)
+	if !confirmed && !undecided {
 		return -1, -1, false
 	}
 
-	// Search for inner literal starting from 'at'
-	searchStart := at
-	minMatchStart := at // Anti-quadratic guard for reverse scans
-	for {
-		// Find next inner literal candidate
-		pos := s.prefilter.Find(haystack, searchStart)
-		if pos == -1 {
-			break
-		}
-
-		// Step 1: Reverse search on PREFIX portion with anti-quadratic guard
-		// Use minMatchStart to avoid re-scanning regions already checked
-		matchStart := s.reverseDFA.SearchReverseLimited(revCache, haystack, at, pos, minMatchStart)
-		if matchStart == lazy.SearchReverseLimitedQuadratic {
-			// Quadratic behavior detected - fall back to PikeVM
-			return s.pikevm.SearchAt(haystack, at)
-		}
-		if matchStart < 0 || matchStart < at {
-			// Prefix doesn't match or match starts before 'at' - try next candidate
-			searchStart = pos + 1
-			if searchStart >= len(haystack) {
-				break
-			}
-			continue
-		}
-
-		// Step 2: Forward search on SUFFIX portion
-		suffixHaystack := haystack[pos:]
-		matchEndRel := s.forwardDFA.Find(fwdCache, suffixHaystack)
-		if matchEndRel < 0 {
-			// Suffix doesn't match - try next candidate
-			searchStart = pos + 1
-			if searchStart >= len(haystack) {
-				break
-			}
-			continue
-		}
-
-		// Found valid match
-		matchEnd := pos + matchEndRel
-		return matchStart, matchEnd, true
+	// Phase 2 (core): leftmost-first end from 'at', then the start for that end.
+	fullFwd := s.fullFwdCachePool.Get().(*lazy.DFACache)
+	end = s.fullFwdDFA.SearchAt(fullFwd, haystack, at)
+	s.fullFwdCachePool.Put(fullFwd)
+	if end < 0 {
+		return -1, -1, false
 	}
-
-	// Fallback to PikeVM
-	return s.pikevm.SearchAt(haystack, at)
+	if end == at {
+		return at, at, true // empty match: nothing to scan backwards
+	}
+	fullRev := s.fullRevCachePool.Get().(*lazy.DFACache)
+	start = s.fullRevDFA.SearchReverse(fullRev, haystack, at, end)
+	s.fullRevCachePool.Put(fullRev)
+	if start < 0 {
+		// The two automata disagree: let the NFA simulation decide
+		vm := s.vmPool.Get().(*nfa.PikeVM)
+		start, end, found = vm.SearchAt(haystack, at)
+		s.vmPool.Put(vm)
+		return start, end, found
+	}
+	return start, end, true
 }
